@@ -575,3 +575,30 @@ def extract_fixture(name):
         db.merge(json.load(f))
     db.finish()
     return db
+
+
+def extract_standalone(db, name, text):
+    """Analyse a synthetic translation unit with the current tree's flags into a database of its own (used to look at
+    the record declarations of preprocessor arms the configured build does not compile)."""
+    h = hashlib.sha256((name + "\n" + text).encode()).hexdigest()[:16]
+    cdir = os.path.join(CACHE, db.key)
+    os.makedirs(cdir, exist_ok=True)
+    src = os.path.join(cdir, "alone-%s-%s.cpp" % (name, h))
+    out = os.path.join(cdir, "alone-%s-%s.json" % (name, h))
+    if not os.path.exists(out):
+        with open(src, "w") as f:
+            f.write(text)
+        shadow = shadow_config(db.repo, db.config, db.key)
+        flags = flags_for(db.repo, db.config, shadow)
+        tmp = out + ".tmp%d_%d" % (os.getpid(), int(time.time() * 1000) % 100000)
+        rc, log = _run_batch(([src], tmp, db.repo, flags))
+        if rc != 0:
+            if os.path.exists(tmp):
+                os.unlink(tmp)
+            raise AnalysisBroken("synthetic TU %s does not compile:\n%s" % (name, log[-3000:]))
+        os.replace(tmp, out)
+    d2 = DB(db.repo, db.config, db.key + "-" + name, [src])
+    with open(out) as f:
+        d2.merge(json.load(f))
+    d2.finish()
+    return d2
